@@ -434,6 +434,7 @@ func checkC11(c *Ctx) {
 	// a session is authenticated by a token only when the token passes the gates (signature, serial,
 	// expiry compared as a time): shared with C12
 	c.checkTokenAuth()
+	c.checkValidatedOnlyWhenNothingMissing()
 }
 
 func keys(m map[string]bool) []string {
